@@ -91,6 +91,8 @@ let rec pv_of_sx (x : sx) : M.pv =
     M.PObj (cstring_of c, List.map (function L [ A f; v ] -> (cstring_of f, pv_of_sx v) | _ -> failwith "field") fs)
   | L [ A "c"; A c ] -> M.PCls (cstring_of c)
   | L [ A "crc"; A c ] -> M.PCrc (cstring_of c)
+  | L (A "bi" :: parts) ->   (* pl15: a builtin / bound-method value, as printed by sx_of_pv *)
+    M.PBuiltin (cstring_of (String.concat " " (List.map (function A a -> a | _ -> failwith "bi") parts)))
   | L [ A "f"; A b ] -> M.PF64 (cn_of_z (Z.of_string b))
   | L [ A "d"; A n; A e ] -> M.PDy (cz_of_z (Z.of_string n), cz_of_z (Z.of_string e))
   | L (A "D" :: r) -> M.PDict (List.map (function L [ k; v ] -> (pv_of_sx k, pv_of_sx v) | _ -> failwith "dict") r)
